@@ -5,7 +5,7 @@ from sa.model import AnalysisError, Unknown, norm, unwrap, Program
 from sa.callgraph import Analysis, ExtVal, ClsVal
 from sa.query import Facts, call_name, find_calls, try_fold, calls_in, defs_of
 from sa.prov import Prov
-from .common import device_touching, manager_reachable, protocol_classes, dongle_classes
+from .common import device_touching, manager_reachable, protocol_classes, dongle_classes, comm_flag
 from .c06 import _strip
 
 TECHNIQUE = ("census of concurrency constructs (threads, timers, pools, processes, asyncio, threading/forking "
@@ -120,9 +120,18 @@ def run(run):
               "handler derives from StreamRequestHandler only", key="_TCPServerRequestHandler|bases", where=H.module.relpath,
               message=f"_TCPServerRequestHandler bases: {[norm(b) for b in H.node.bases]}")
     sf = [(fn, c) for fn in P.all_functions for c in find_calls(A, fn, "serve_forever")]
-    run.check("R1", len(sf) == 1 and sf[0][0] is runm and norm(sf[0][1].func.value) == "self.server", "one serve_forever on that server",
+    # the server object may be held in a local of run() before / besides being stored in self.server: a local whose only binding is the constructor call
+    held = set()
+    if ctor_sites:
+        for st_ in A.own_nodes(runm):
+            if isinstance(st_, ast.Assign) and st_.value is ctor_sites[0][1] and len(st_.targets) == 1 and isinstance(st_.targets[0], ast.Name):
+                nm_ = st_.targets[0].id
+                if sum(1 for x in ast.walk(runm.node) if isinstance(x, ast.Name) and x.id == nm_ and isinstance(x.ctx, (ast.Store, ast.Del))) == 1:
+                    held.add(nm_)
+    run.check("R1", len(sf) == 1 and sf[0][0] is runm and (norm(sf[0][1].func.value) == "self.server" or norm(sf[0][1].func.value) in held), "one serve_forever on that server",
               key="server|serve_forever", where=runm.loc(), message=f"serve_forever sites: {[(f.qualname, norm(c)) for f, c in sf]}")
     sd = [(rhs, wfn) for (rhs, wfn, tgt) in A._field_writes.get("server", []) if wfn.cls is srv]
+    sd = [((ctor_sites[0][1] if (ctor_sites and isinstance(r, ast.Name) and r.id in held and w is runm) else r), w) for r, w in sd]
     run.check("R1", sorted(norm(r) for r, w in sd if r is not None) == sorted(["None", norm(ctor_sites[0][1])]) if ctor_sites else False,
               "self.server is None or that TCPServer", key="server|field", where=srv.module.relpath,
               message=f"TCPServer.server is assigned {[norm(r) for r, w in sd]}")
@@ -259,7 +268,7 @@ def run(run):
 
     # the objects that live across requests (the protocol and the dongle) keep nothing of a request: outside their constructors they only write the
     # link / version bookkeeping attributes (closed world) - a reply or a device reading stored there could be served to another client's request
-    LONG_LIVED = {"_comm_issue": "link-failure flag", "_dongle_app_version": "bring-up", "_dongle_ui_version": "bring-up", "dongle": "transport handle",
+    LONG_LIVED = {comm_flag(run): "link-failure flag", "_dongle_app_version": "bring-up", "_dongle_ui_version": "bring-up", "dongle": "transport handle",
                   "last_comm_exception": "diagnostics"}
     seen_cls = set()
     n_w = 0
